@@ -241,6 +241,16 @@ def analyse(chk, job, rb, rt, model):
                     problems.append(("susc-bound", "|chi_%s,trunc - chi| = %.3e exceeds beta eps dim = %.3e" % ("".join(k), d, bound)))
                     break
     cb = {tuple(t[1:5]): t for t in rb.get("impl", "CHI")}
+    # theorem tpgf_truncation_bound: 6 F^2 beta^3 (4/pi^3 + 2/pi^2) eps, F >= squared Frobenius norm of each of the four operators
+    # (hypothesis `frobenius`).  F is measured on the dumped blocks of every c_i, c^+_i and never taken below dim/2 (its exact
+    # value, Tr c^+ c); with F = dim/2 the bound is 0.4975 dim^2 beta^3 eps (tpgf_truncation_bound_half_dim: <= dim^2 beta^3 eps/2)
+    f2 = {}
+    for t in rt.dump:
+        if t[0] == "OPMAT" and t[1] in ("c", "cdag"):
+            f2[(t[1], t[2])] = f2.get((t[1], t[2]), 0.0) + sum(float.fromhex(t[10 + 4 * i]) ** 2 + float.fromhex(t[11 + 4 * i]) ** 2 for i in range(int(t[7])))
+    frob = max([dim / 2.0] + list(f2.values()))
+    STATS["max_frob2_over_half_dim"] = max(STATS.get("max_frob2_over_half_dim", 0.0), max(list(f2.values()) or [0.0]) / (dim / 2.0))
+    chi_bound = 6 * frob * frob * (4 / math.pi ** 3 + 2 / math.pi ** 2) * beta ** 3 * eps
     for t in rt.get("impl", "CHI"):
         k = tuple(t[1:5])
         if k in cb:
@@ -248,11 +258,11 @@ def analyse(chk, job, rb, rt, model):
             vb = [edlib.cx(cb[k], 9 + 4 * i) for i in range((len(cb[k]) - 9) // 4)]
             for a, b in zip(vt, vb):
                 STATS["chi_values"] += 1
-                d, bound = abs(a - b), 0.5 * dim * dim * beta ** 3 * eps
+                d, bound = abs(a - b), chi_bound
                 if bound > 0:
                     STATS["max_chi_ratio_to_bound"] = max(STATS["max_chi_ratio_to_bound"], d / bound)
                 if C09.isbad(a.real) or d > bound + 1e-11 * (1 + abs(b)):
-                    problems.append(("chi-bound", "|chi4_%s,trunc - chi4| = %.3e exceeds 0.5 dim^2 beta^3 eps = %.3e" % ("".join(k), d, bound)))
+                    problems.append(("chi-bound", "|chi4_%s,trunc - chi4| = %.3e exceeds 6 F^2 (4/pi^3 + 2/pi^2) beta^3 eps = %.3e (F = %.6g, dim = %d; theorem tpgf_truncation_bound)" % ("".join(k), d, bound, frob, dim)))
                     break
     # ---- eps = 0: nothing changes, bit for bit ----
     # Observable records must be identical.  Internal bookkeeping (number of parts, the isVanishing flag) may differ in one
@@ -353,7 +363,7 @@ def run(chk):
                     "extraction: ExtrOcamlBasic, ExtrOcamlNatInt, ExtrOCamlFloats; ocaml/driver_c09.ml; harness/h_ed.cpp + ed_common.h; tools/edlib.py, tools/scen.py"]
     chk.assume += ["floating-point rounding is outside the theorems; slack 1e-12 (1+|value|) on top of each bound",
                    "hypotheses row_norm_c / row_norm_cx of gf_truncation_bound are checked numerically on the dumped operator blocks of every run (they are consequences of C10: the blocks are sub-matrices of c, c^+ in an orthonormal basis)",
-                   "bounds for the susceptibility (beta eps dim) and the two-particle Green's function (0.5 dim^2 beta^3 eps at fermionic Matsubara frequencies) are derived by hand (comment in Properties_C19.v), not machine-checked",
+                   "bounds for the susceptibility (beta eps dim: theorems susc_truncation_bound, susc_spec_truncation_bound_matsubara) and the two-particle Green's function (6 F^2 (4/pi^3 + 2/pi^2) beta^3 eps at fermionic Matsubara triples, F = dim/2: theorem tpgf_truncation_bound) are machine-checked about the full-space specification EDSpec.chi / EDSpec.susc with the chains of discarded blocks masked out (PV.TruncBounds); that the library's values ARE that specification is C02 / C12, not re-established here; the hypothesis `frobenius` (sum of |entry|^2 of each c_i, c^+_i <= dim/2) is measured on the dumped operator blocks of every run and the measured value used in the bound",
                    "the terms dropped inside a part by the library's own 1e-8 residue threshold are the same in both runs (weights are not changed by truncation: checked)"]
     edlib.binaries("real")
     pv.build_driver("driver_c09", ["C09_model"], floats=True)
